@@ -339,11 +339,21 @@ where
             // TODO: maybe dynamic affection range
             let affected_range = this_range.start..(this_range.end + 1);
             if input.token_change.overlaps(&affected_range) {
-                match inner_parser.parse(input) {
+                match inner_parser.parse(input.clone()) {
                     Ok(result) => Ok(result),
-                    Err(nom::Err::Error(err)) => affected_error(err.input),
+                    // The caller parses from scratch at the position where this node started,
+                    // not where the inner parser gave up.
+                    Err(nom::Err::Error(_)) => affected_error(input),
                     Err(_) => panic!("Incomplete data"),
                 }
+            } else if input.location_offset() != input.token_change.new_token_pos(this_range.start)
+                || input.location_offset() - input.reference_pos != this.to_range().start
+            {
+                // The token stream does not stand at the (new) start of this node,
+                // because a previous parser consumed more or fewer tokens than before,
+                // or the node moved inside its reference (its ranges are relative to it).
+                // The old node describes other tokens and cannot be reused.
+                affected_error(input)
             } else {
                 fn remove_messages(info: &mut AstInfo) {
                     info.errors.retain(|err| {
@@ -411,7 +421,13 @@ where
         let mut acc = Vec::new();
         let parsers = inner_parser.unwrap_or_default();
         for parser in parsers {
-            let parser_start = parser.to_range().shift(parser.offset).start;
+            // the ranges of the old nodes are relative to their (old) reference,
+            // but the position in the token stream is absolute
+            let parser_start = parser
+                .to_range()
+                .shift(parser.offset)
+                .shift(input.get_old_reference())
+                .start;
             let (i, _) = match handle_insertions(input.clone(), parser_start, &mut acc) {
                 Ok(result) => result,
                 Err(nom::Err::Error(err)) => return Ok((err.input, acc)),
